@@ -62,6 +62,10 @@ Theorem C18_dollar_zero_is_identity : forall k r s limit, re_replace_x k r s [36
 Proof. exact replace_x_zero. Qed.
 Theorem C18_find_never_longer_than_text : forall k r s, (length (concat (re_find k r s)) <= length s)%nat.
 Proof. exact find_total_length. Qed.
+(* captured groups lie inside the match (the same invariant carried over the capture list): no entry of re_capture is longer than its first entry, the whole match *)
+Require Import RegexCaps.
+Theorem C18_capture_groups_inside_match : forall k r s, Forall (fun g => (length g <= length (hd [] (re_capture k r s)))%nat) (re_capture k r s).
+Proof. exact capture_groups_inside_match. Qed.
 Example C18_dollar_zero_example : spans_c 1 (RStar (RChar 97)) [97;97;98;97]%N <> [] /\ re_replace_x 1 (RStar (RChar 97)) [97;97;98;97]%N [36; 48]%N 2 = [97;97;98;97]%N.
 Proof. split; [vm_compute; discriminate | vm_compute; reflexivity]. Qed.
 Print Assumptions C18_plain_replacement_is_not_expanded.
